@@ -441,7 +441,24 @@ class SymReal:
         raise TypeError('SymReal cannot be realised as int (use the int shadow)')
 
     def __index__(s):
-        raise TypeError('SymReal used as index')
+        # a symbolic integer used as a sequence index / range bound: concretise by forking on the values the solver proposes
+        c = CTX
+        if c is None or not s.is_int:
+            raise TypeError('SymReal used as index')
+        for _ in range(64):
+            c.solver.push()
+            r = c.solver.check()
+            v = c.solver.model().eval(s.z, model_completion=True) if r == z3.sat else None
+            c.solver.pop()
+            if v is None:
+                raise PathCut('symbolic index: no model')
+            try:
+                k = int(v.as_long()) if z3.is_int_value(v) else int(v.as_fraction())
+            except Exception:      # noqa
+                raise PathCut('symbolic index: non-numeric model value')
+            if c.decide(s.z == k):
+                return k
+        raise PathCut('symbolic index: too many candidate values')
 
     def __repr__(s):
         t = str(s.z)
